@@ -11,8 +11,11 @@ Domain : the real `BasicEmbeddingsIndex` with a deterministic fake embedding mod
          before / between / after those of the first index and their requests interleave with its requests.
          About a third of the cases contain client cancellations: the task of one to three of the requests is
          cancelled a drawn virtual time after the request arrived (hold window / model embedding / after completion).
+         Every model spec carries the NUMERIC FORM of its vectors: dyadic (single-precision representable) or doubles
+         that are not (k/10, k/3, (b-128)/127.5, around 1e-8, around 1e8, mixed) - a lossy store or batch path shows.
 Oracle : every fake model is a pure function `vec(text, model)` (sha256 -> 16 floats for the first index's model;
-         sha512 of model name and text -> 8/16/24 floats for the others); per index: `vec(text, its model)`.
+         sha512 of model name and text -> 8/16/24 floats for the others; the form maps 16 digest bits to a float);
+         per index: `vec(text, its model)`, compared with ==.
          Every request must complete
          (no deadlock, no spinning, no exception - the model never raises), vectors handed back by
          `_batch_get_embeddings` / `_get_embeddings` must equal `vec(text)` per text in input order, the
@@ -65,12 +68,26 @@ RULE = (
     "surfacing in a request nobody cancelled counts as 'did not complete'. A grid (batch size below/above a burst of "
     "3-4 simultaneous requests x victim position x cancel in the hold window / during the model call / after completion x "
     "op x cache) is enumerated. "
+    "NUMERIC FORM of the model's vectors is a dimension of every model spec (case key 'values' for the first index, "
+    "others[i].values; absent = dyadic; the engine model name is '<base>~<form>'): dyadic (odd/2^17 - exactly representable in "
+    "single precision, 1/4 of the generated cases) or python doubles that single precision cannot hold: tenths k/10, thirds "
+    "k/3, (byte-128)/127.5, the dyadic value x 1e-8, x 1e8, and tenths/thirds/bytes/dyadic mixed in one vector (1/8 each); a "
+    "further index draws its own form (mostly the first index's; same base model + same form = same model, which may share the "
+    "filesystem cache directory of the first index -> a second index on a warm directory). All vectors are compared with == "
+    "against the model function (no tolerance). Labels values:<form>, inexact-f32-values+cache:<store|off>, "
+    "+cold-cache/+warm-cache:<store> (request text not yet / already cached by add_items), +batched-request, "
+    "+second-index-on-warm-cache-dir. A grid (6 inexact forms x 5 cache configurations x batching; list/embed/search requests "
+    "on cold and warm texts, twice, through two indexes of the same model sharing the cache directory) is enumerated first. "
     "Non-trivial = at least two model calls in flight at the same time, or a request arrived while the batching "
     "queue was full, or (cache on) a duplicate text inside one model batch / one list request, or a request really "
     "cancelled while another request of the same index was waiting; distinct by case hash."
 )
 ASSUMPTIONS = [
-    "the embedding model never raises and returns python floats (DESIGN S: a failing model is out of scope)",
+    "the embedding model never raises and returns lists of finite python floats (doubles, as the API-backed engines deliver "
+    "them; not only single-precision representable ones) (DESIGN S: a failing model is out of scope)",
+    "'exactly the vector the embedding model gives' is taken literally: == on every component, whatever store/key generator/"
+    "batching is configured; vectors around 1e8 / 1e-8 are scaled copies of the dyadic ones so that search() ranking (angular, "
+    "single precision inside Annoy) stays as discriminating as before",
     "items are added sequentially before the concurrent phase (concurrent add_items is not part of the statement)",
     "search() is only compared for query texts that are indexed (top result must carry the identical text); Annoy is exact at <= 15 items",
     "schedules are asyncio interleavings at the suspension points of the code (model call, hold timer, events); no OS threads",
@@ -116,12 +133,59 @@ def budget(tier):
 MODELS = {"fake": DIM, "fake-b": 8, "fake-c": 16, "fake-d": 24}
 
 
+# the NUMERIC FORM of the components a model returns (part of the model's name: "<base>~<form>"; no suffix = dyadic).
+# "dyadic" (odd/2^17: exactly representable in single precision - a float32 round trip of the vector is invisible)
+# is what every model returned before; the other forms are python doubles that are NOT representable in single
+# precision, as the vectors of the API-backed engines (JSON numbers) are: tenths k/10, thirds k/3, (byte-128)/127.5,
+# values around 1e-8 and around 1e8 (the dyadic value times 1e-8 / 1e8: the whole vector is scaled, so that its
+# direction - what search() ranks by - stays as well spread as the dyadic one), and tenths / thirds / bytes / dyadic
+# mixed inside one vector (components of one magnitude: a vector mixing 1e8 with 1e-8 components would be dominated
+# by two or three components and search() could not tell texts apart - not what the statement is about).
+FORMS = ["dyadic", "tenths", "thirds", "byte127.5", "tiny1e-8", "huge1e8", "mixed"]
+_MIX = ["tenths", "thirds", "byte127.5", "dyadic"]
+
+
+def _component(w, form, i):
+    """w: 16 bits of the digest -> one float of the given numeric form"""
+    if form == "mixed":
+        form = _MIX[i % len(_MIX)]
+    x = (w - 32767.5) / 65536.0
+    if form == "dyadic":
+        return x
+    if form == "tenths":
+        return (w % 41 - 20) / 10
+    if form == "thirds":
+        return (w % 61 - 30) / 3
+    if form == "byte127.5":
+        return ((w >> 8) - 128) / 127.5
+    if form == "tiny1e-8":
+        return x * 1e-8
+    if form == "huge1e8":
+        return x * 1e8
+    raise KeyError(form)
+
+
+def model_name(base, form=None):
+    return base if not form or form == "dyadic" else f"{base}~{form}"
+
+
+def _dim(model):
+    return MODELS[model.partition("~")[0]]
+
+
 def vec(text, model="fake"):
-    if model == "fake":
+    base, _, form = model.partition("~")
+    if base == "fake":
         d = hashlib.sha256(text.encode("utf-8", "surrogatepass")).digest()
     else:
-        d = hashlib.sha512(model.encode() + b"\0" + text.encode("utf-8", "surrogatepass")).digest()
-    return [((d[2 * i] << 8 | d[2 * i + 1]) - 32767.5) / 65536.0 for i in range(MODELS[model])]
+        d = hashlib.sha512(base.encode() + b"\0" + text.encode("utf-8", "surrogatepass")).digest()
+    return [_component(d[2 * i] << 8 | d[2 * i + 1], form or "dyadic", i) for i in range(MODELS[base])]
+
+
+def _f32(v):
+    import array
+
+    return array.array("f", v).tolist()
 
 
 # ---------------------------------------------------------------------------------------------
@@ -192,7 +256,7 @@ def _register():
 
         def __init__(self, embedding_model=None, **kwargs):
             self.model = embedding_model
-            self.embedding_size = MODELS[embedding_model]
+            self.embedding_size = _dim(embedding_model)
 
         async def encode_async(self, documents):
             rec, lat = _CTX.begin(documents)
@@ -232,6 +296,9 @@ def _case(draw):
     mbs = draw(st.sampled_from([1, 1, 2, 2, 3, 3, 4, 5, 6, 7, 8, 9, 10, 11, 12]))
     hold = draw(st.sampled_from(HOLDS))
     cache = draw(st.sampled_from([None] + CACHES))
+    # numeric form of the vectors of the first index's model: a quarter dyadic (single-precision representable), the
+    # rest doubles that a float32 / lossy round trip through a cache store or a batch would change
+    values = draw(st.sampled_from(FORMS[:1] * 2 + FORMS[1:]))
     pool = POOL + draw(st.lists(st.text(max_size=5), max_size=3))
     # a case talks about few different texts so that duplicates and cache hits are frequent
     k = draw(st.integers(1, len(pool)))
@@ -255,6 +322,7 @@ def _case(draw):
                     "cache": draw(st.sampled_from([cache] * 3 + CACHES[1:])) if cache else draw(st.sampled_from(CACHES + CACHES[1:])),
                     "share_cache_dir": draw(st.booleans()),
                     "items": draw(chunks),
+                    "values": draw(st.sampled_from([values] * 3 + FORMS)),
                 }
             )
     all_items = [items] + [o["items"] for o in others]
@@ -314,6 +382,8 @@ def _case(draw):
         "requests": requests,
         "latencies": latencies,
     }
+    if values != "dyadic":
+        case["values"] = values
     if cancels:
         case["cancels"] = cancels
     if others:
@@ -329,6 +399,35 @@ def strategy(tier):
 
 
 def enumerate_cases(tier):
+    # numeric form of the model's vectors x cache configuration x batching: every operation on a cold cache (texts
+    # first seen in a request), on a warm one (texts cached by add_items / by an earlier request) and from a second
+    # index of the same model (filesystem: on the same, already filled cache directory)
+    for form in FORMS[1:]:
+        for cache in CACHES:
+            for batching in (False, True):
+                requests = []
+                for j, (op, ts) in enumerate(
+                    (("list", ["b", "zz", "", "b"]), ("embed", ["zz"]), ("search", ["a"]), ("embed", ["yy"]), ("list", ["yy", "a", "xx"]), ("search", ["ab"]), ("embed", ["xx"]))
+                ):
+                    for ix in (0, 1):
+                        req = {"at": 0.1 * j if j < 4 else 0.4, "op": op, "texts": ts}
+                        if ix:
+                            req["ix"] = ix
+                        requests.append(req)
+                yield {
+                    "use_batching": batching,
+                    "max_batch_size": 3,
+                    "max_batch_hold": 0.01,
+                    "cache": cache,
+                    "values": form,
+                    "items": [["a", "b"], ["ab"]],
+                    "others": [
+                        {"model": "fake", "values": form, "use_batching": batching, "max_batch_size": 2, "max_batch_hold": 0.01, "cache": cache, "share_cache_dir": True, "items": [["b", "a"], ["ab", ""]]}
+                    ],
+                    "setup_order": [0, 0, 1, 1],
+                    "requests": requests,
+                    "latencies": [0, 0.01, 0],
+                }
     # bursts of n simultaneous single-text requests around the batch size, for every cache configuration
     for mbs in (1, 2, 3):
         for hold in HOLDS:
@@ -450,8 +549,8 @@ async def _request(index, i, req, out, flags):
 def _specs(case):
     """The indexes of a case: the first one (top-level keys, model "fake") and the optional further ones."""
     first = {k: case[k] for k in ("use_batching", "max_batch_size", "max_batch_hold", "cache", "items")}
-    first["model"] = "fake"
-    return [first] + list(case.get("others") or [])
+    first["model"] = model_name("fake", case.get("values"))
+    return [first] + [dict(o, model=model_name(o["model"], o.get("values"))) for o in case.get("others") or []]
 
 
 async def _main(indexes, specs, case, out, flags):
@@ -533,7 +632,9 @@ def _check_items(indexes, specs, flags, cfgs, partial=False):
             raise Violation(
                 "item-embedding",
                 f"{cfgs[k]}: items {added!r}: stored embedding of item(s) {bad} is not the model's vector"
-                + (f" (stored dimensions {dims}, the model's is {MODELS[specs[k]['model']]})" if dims != [MODELS[specs[k]["model"]]] else ""),
+                + (f" (stored dimensions {dims}, the model's is {_dim(specs[k]['model'])})" if dims != [_dim(specs[k]["model"])] else "")
+                + "".join(f" (item {i}: stored {stored[i]!r:.60}.., model gives {exp[i]!r:.60}..)" for i in bad[:1] if i < len(stored))
+                + (" - the stored vectors equal the model's after rounding to single precision" if bad and all(i < len(stored) and stored[i] == _f32(exp[i]) for i in bad) else ""),
             )
 
 
@@ -558,7 +659,7 @@ def prop(case):
                 tmp = tmp or tempfile.mkdtemp(prefix="vf-c19-")
                 # every index has its own cache directory; only an index with the model of the first one may share
                 # the first one's directory (a persistent store shared by two different models is not generated)
-                own = not (k and s.get("share_cache_dir") and s["model"] == "fake" and (specs[0]["cache"] or {}).get("store") == "filesystem")
+                own = not (k and s.get("share_cache_dir") and s["model"] == specs[0]["model"] and (specs[0]["cache"] or {}).get("store") == "filesystem")
                 store_config = {"cache_dir": os.path.join(tmp, f"emb{k}" if own and k else "emb")}
             cache_configs.append({"enabled": True, "key_generator": cache["key"], "store": cache["store"], "store_config": store_config})
         cfgs.append(
@@ -636,6 +737,7 @@ def prop(case):
                             "wrong-embedding",
                             f"{what}: result {j} for text {req['texts'][j]!r} is "
                             + (f"the embedding of {owner[0][0]!r}" + (f" by model {owner[0][1]!r}" if multi else "") if owner else f"{g!r:.80}")
+                            + (f" (the model gives {e!r:.80}; equal after rounding to single precision)" if g is not None and not owner and list(g) == _f32(e) else "")
                             + "; model batches: "
                             + repr([c["texts"] for c in calls[flags["setup_calls"]:]])[:300],
                         )
@@ -654,8 +756,8 @@ def prop(case):
         # yielding would hang the clean-up
         loop.shutdown(run_cancelled=not interrupted)
         asyncio.set_event_loop(None)
-        for m in MODELS:
-            providers._embedding_model_cache.pop(f"{ENGINE}-{m}", None)
+        for m in [m for m in providers._embedding_model_cache if m.startswith(ENGINE + "-")]:
+            providers._embedding_model_cache.pop(m, None)
         if tmp:
             shutil.rmtree(tmp, ignore_errors=True)
 
@@ -682,6 +784,27 @@ def prop(case):
         "requests:" + ("1" if n == 1 else "2-5" if n <= 5 else "6-15" if n <= 15 else "16-40"),
         "model-calls:" + ("0" if not req_calls else "1" if len(req_calls) == 1 else "2-4" if len(req_calls) <= 4 else "5+"),
     ]
+    # numeric form of the models' vectors, and which cache store / path / batching the inexact ones went through
+    forms = [(s["model"].partition("~")[2] or "dyadic") for s in specs]
+    for f in sorted(set(forms)):
+        labels.append("values:" + f)
+    for k, s in enumerate(specs):
+        if forms[k] == "dyadic":
+            continue
+        c = s["cache"]
+        labels.append("inexact-f32-values+cache:" + (c["store"] if c else "off"))
+        mine = [r for r in case["requests"] if r.get("ix", 0) == k]
+        if s["use_batching"] and any(r["op"] != "list" for r in mine):
+            labels.append("inexact-f32-values+batched-request")
+        if c:
+            seen_before = set(flags["added"][k])
+            if any(t in seen_before for r in mine for t in r["texts"]):
+                labels.append(f"inexact-f32-values+warm-cache:{c['store']}")
+            if any(t not in seen_before for r in mine for t in r["texts"]):
+                labels.append(f"inexact-f32-values+cold-cache:{c['store']}")
+            if k and c["store"] == "filesystem" and s.get("share_cache_dir") and s["model"] == specs[0]["model"] and specs[0]["cache"] and specs[0]["cache"]["store"] == "filesystem":
+                labels.append("inexact-f32-values+second-index-on-warm-cache-dir")
+    labels = sorted(set(labels), key=labels.index)
     if inflight >= 2:
         labels.append("inflight>=2")
     if inflight >= 3:
@@ -722,7 +845,7 @@ def prop(case):
         pairs = [(a, b) for a in range(len(specs)) for b in range(a + 1, len(specs)) if specs[a]["model"] != specs[b]["model"]]
         if pairs:
             labels.append("other-model")
-        if any(MODELS[specs[a]["model"]] != MODELS[specs[b]["model"]] for a, b in pairs):
+        if any(_dim(specs[a]["model"]) != _dim(specs[b]["model"]) for a, b in pairs):
             labels.append("other-model:other-dimension")
         same_text = [(a, b) for a, b in pairs if seen[a] & seen[b]]
         if same_text:
